@@ -767,6 +767,16 @@ def rule_values_from_file(repo, rep, af):
                 n += 1
                 member_tested = isinstance(x.slice, ast.Name) and any(
                     isinstance(st, ast.If) and st.lineno < x.lineno and st.body and isinstance(st.body[-1], ast.Raise) and f"{x.slice.id} not in" in str(norm(st.test)) for st in ast.walk(fn))
+                if not member_tested and isinstance(x.slice, ast.Name):
+                    # positive form: the subscript sits under `if <name> in <Enum>.__members__:`
+                    cur_ = x
+                    while cur_ is not fn and cur_ is not None:
+                        pp_ = af.parents.get(cur_)
+                        if pp_ is None:
+                            break
+                        if isinstance(pp_, ast.If) and cur_ in pp_.body and f"{x.slice.id} in " in str(norm(pp_.test)) and "not in" not in str(norm(pp_.test)):
+                            member_tested = True
+                        cur_ = pp_
                 rep.check(member_tested or in_guarding_try(x, fn, ("KeyError",)), "C18-g", f"ethosu/vela/architecture_features.py:{q}", f"`{str(norm(x))[:70]}`: an unknown name becomes a ConfigOptionError",
                           "the lookup is neither preceded by a membership test that raises nor inside `try ... except KeyError: raise ConfigOptionError` "
                           "(demonstrated: const_mem_area=Axi2 ends in a KeyError traceback)")
